@@ -40,7 +40,7 @@ fn plan(tier: Tier) -> Plan {
             exhaustive: false,
         },
         Tier::Thorough => Plan {
-            cases: ex * 4 + 400_000,
+            cases: ex * 4 + 3_000_000,
             time_cap_s: 420,
             case_timeout_s: 20,
             exhaustive: false,
